@@ -623,6 +623,30 @@ func (g *c12Gen) anys(lo, hi int) []any {
 	return out
 }
 
+// shaped: argument-shape boundary of the variadic `...any` parameters. go-redis
+// flattens ONE slice argument into its elements, takes scalars as they are and
+// cannot marshal a slice among several arguments; the wrapper must hand the
+// caller's arguments on unchanged (`args...`) for every shape.
+func (g *c12Gen) shaped(lo, hi int) []any {
+	if g.r.Intn(100) < 70 {
+		return g.anys(lo, hi)
+	}
+	switch g.r.Intn(6) {
+	case 0:
+		return []any{} // no arguments
+	case 1:
+		return []any{[]string{g.member(), g.member()}} // one []string
+	case 2:
+		return []any{[]any{g.member(), g.r.Intn(5)}} // one []any
+	case 3:
+		return []any{g.member(), []string{g.member()}} // mixed: client-side marshal error on both sides
+	case 4:
+		return []any{[]string{}} // one empty slice
+	default:
+		return []any{g.member(), g.r.Intn(5), g.member(), int64(2)} // many scalars
+	}
+}
+
 // ---------------------------------------------------------------------------
 // reflective invocation
 
